@@ -54,6 +54,20 @@ fn list<T, F: Fn(&T) -> String>(items: impl IntoIterator<Item = T>, f: F) -> Str
     )
 }
 
+/// User meta-data as [[key, value], ...] (values printed as text).
+fn meta_json(meta: &std::collections::BTreeMap<String, crate::lang::rustemo_actions::ConstVal>) -> String {
+    use crate::lang::rustemo_actions::ConstVal;
+    list(meta.iter(), |(k, v)| {
+        let v = match v {
+            ConstVal::Int(i) => format!("{}", i.as_ref()),
+            ConstVal::Float(f) => format!("{}", f.as_ref()),
+            ConstVal::Bool(b) => format!("{}", b.as_ref()),
+            ConstVal::String(s) => s.as_ref().clone(),
+        };
+        format!("[{},{}]", esc(k), esc(&v))
+    })
+}
+
 fn opt_idx(i: Option<usize>) -> String {
     match i {
         Some(i) => i.to_string(),
@@ -90,7 +104,7 @@ fn grammar_fields(g: &Grammar) -> String {
                 None => ("none", String::new()),
             };
             format!(
-                "{{\"name\":{},\"rk\":\"{}\",\"rs\":{},\"rl\":{},\"prio\":{},\"assoc\":{},\"content\":{},\"reach\":{}}}",
+                "{{\"name\":{},\"rk\":\"{}\",\"rs\":{},\"rl\":{},\"prio\":{},\"assoc\":{},\"content\":{},\"reach\":{},\"metav\":{}}}",
                 esc(&t.name),
                 k,
                 esc(&s),
@@ -98,7 +112,8 @@ fn grammar_fields(g: &Grammar) -> String {
                 t.prio,
                 assoc(&t.assoc),
                 t.has_content,
-                t.reachable.get()
+                t.reachable.get(),
+                meta_json(&t.meta)
             )
         })
     );
@@ -120,7 +135,7 @@ fn grammar_fields(g: &Grammar) -> String {
         "\"prods\":{}",
         list(g.productions.iter(), |p| {
             format!(
-                "{{\"lhs\":{},\"rhs\":{},\"names\":{},\"bools\":{},\"prio\":{},\"assoc\":{},\"nops\":{},\"nopse\":{},\"kind\":{},\"ntidx\":{},\"meta\":{}}}",
+                "{{\"lhs\":{},\"rhs\":{},\"names\":{},\"bools\":{},\"prio\":{},\"assoc\":{},\"nops\":{},\"nopse\":{},\"kind\":{},\"ntidx\":{},\"meta\":{},\"metav\":{}}}",
                 g.nonterm_to_symbol_index(p.nonterminal).0,
                 list(p.rhs_symbols(), |s| s.0.to_string()),
                 list(p.rhs.iter(), |a| esc(
@@ -133,7 +148,8 @@ fn grammar_fields(g: &Grammar) -> String {
                 p.nopse,
                 esc(p.kind.as_deref().unwrap_or("")),
                 p.ntidx,
-                list(p.meta.keys(), |k| esc(k))
+                list(p.meta.keys(), |k| esc(k)),
+                meta_json(&p.meta)
             )
         })
     );
